@@ -9,23 +9,24 @@ package otelcol
 // A script is a list of decisions at the decision points of the gated harness (runloop_test.go): an external event
 // performed there, or "go"/"fail" = let the Run goroutine execute up to the next gate with an ok / failing outcome.
 // Only tokens applicable at the point where the parent script ran out are expanded (breadth first), so every
-// generated script is meaningful; the case id is the script itself (decimal digits 1..9), so a case replays alone.
+// generated script is meaningful; the case id is the script itself (base-11 digits 1..10), so a case replays alone.
 // Same line protocol and model as TestVerifC20RunLoop (exact differential + monitor + Go oracles).
 
 import (
 	"os"
 	"strconv"
+	"strings"
 	"testing"
 )
 
-var v20Alphabet = []string{"go", "fail", "shutdown", "hup", "term", "watch", "watcherr", "async", "cancel"}
+var v20Alphabet = []string{"go", "fail", "shutdown", "hup", "term", "watch", "watcherr", "async", "cancel", "fatal"}
 
 func v20Encode(script []string) int {
 	id := 0
 	for _, tok := range script {
 		for i, a := range v20Alphabet {
 			if a == tok {
-				id = id*10 + i + 1
+				id = id*11 + i + 1
 			}
 		}
 	}
@@ -35,11 +36,11 @@ func v20Encode(script []string) int {
 func v20Decode(id int) []string {
 	var rev []string
 	for id > 0 {
-		d := id % 10
+		d := id % 11
 		if d >= 1 && d <= len(v20Alphabet) {
 			rev = append(rev, v20Alphabet[d-1])
 		}
-		id /= 10
+		id /= 11
 	}
 	script := make([]string, 0, len(rev))
 	for i := len(rev) - 1; i >= 0; i-- {
@@ -81,7 +82,7 @@ func TestVerifC20Exhaustive(t *testing.T) {
 	}
 	runOne := func(script []string) (children []string, bad bool) {
 		id := v20Encode(script)
-		out.Linef("case %d kind=exh len=%d", id, len(script))
+		out.Linef("case %d kind=exh len=%d script=%s", id, len(script), strings.Join(append([]string{"-"}, script...), ","))
 		w := v20New(t)
 		d := &v20Det{w: w, out: out, rnd: vRand(id)}
 		d.onScriptEnd = func() { children = d.applicableTokens() }
@@ -104,7 +105,11 @@ func TestVerifC20Exhaustive(t *testing.T) {
 		}
 		if d.bad {
 			out.Linef("stat harness_timeouts 1")
-			out.Linef("viol sig=C20/harness/run-goroutine-did-not-reach-expected-point at=%s", d.at)
+			if w.fatalSent.Load() > w.fatalBack.Load() {
+				out.Linef("viol sig=C20/runloop/run-wedged-while-fatal-error-report-pending state=%s: a component's FatalError report has not come back and the Run goroutine stopped making progress", w.col.GetState())
+			} else {
+				out.Linef("viol sig=C20/harness/run-goroutine-did-not-reach-expected-point at=%s", d.at)
+			}
 		}
 		if d.reloads > 0 {
 			out.Linef("nt")
